@@ -57,7 +57,7 @@ func (e *Engine) analyse(fn *ssa.Function, blk *Block) (rep *FuncReport) {
 	name := e.fnName[fn]
 	e.curFn = name
 	e.bv = false
-	e.safeNilOn = false
+	e.safeNilOn = true // every field access through a pointer carries a non-nil obligation (safe:nil#n)
 	e.exploreAllPanics = false
 	if blk != nil {
 		if m := blk.First("mode"); m != nil && len(m.Words) > 0 && m.Words[0] == "bv" {
